@@ -45,6 +45,7 @@ class Ctx:
         self.fresh = 0
         self.results = []          # (name, verdict, info)
         self.vc_timeout_ms = 10000
+        self.prefer_cli = False
         self.npaths = 0
         self.inputs = {}           # name -> z3 const / array description (for model extraction)
         self.div_safety = True
@@ -1534,6 +1535,8 @@ def check(name, cond, safety=False):
             f.write(s.to_smt2())
     backend = 'z3'
     pit_note = None
+    nonlin_ = _looks_nonlinear(cz)
+    raw_smt2 = s.to_smt2() if (nonlin_ and ctx.prefer_cli) else None      # taken before the first check(): afterwards to_smt2() shows z3's preprocessed state
     r = None
     if _looks_nonlinear(cz):
         # pure rational-function identities are decided by normalisation before any solver is asked
@@ -1584,13 +1587,17 @@ def check(name, cond, safety=False):
     if r == z3.unknown:
         # polynomial-identity back end, then z3 again on the Ackermannised formula with the full budget
         from . import pit
-        ok, pinfo = (False, pit_note) if tried_pit else pit.prove(list(ctx.pc), cz, entails_cheap)
-        r_cli = None
-        if not ok and _looks_nonlinear(cz):
+        # harnesses whose VCs are known to defeat PIT (ghost functions under guards) ask for the portfolio first: ctx.prefer_cli
+        r_cli = _cli_portfolio(raw_smt2, 6) if raw_smt2 is not None else None
+        ok, pinfo = (False, pit_note) if (tried_pit or r_cli is not None) else pit.prove(list(ctx.pc), cz, entails_cheap)
+        if not ok and r_cli is None and raw_smt2 is not None:
             # portfolio stage: the same query (SMT-LIB text of the first solver's assertions) is given to the installed command-line
             # solvers, z3 5.1 and z3 4.8.12, side by side.  z3's non-linear real procedure is unstable between the in-process API
             # and the command line on identical input; an `unsat` from any of them is a proof, any other answer is ignored.
-            r_cli = _cli_portfolio(s.to_smt2(), 15)
+            _t0 = time.time()
+            r_cli = _cli_portfolio(raw_smt2, 15)
+            if os.environ.get('PVC_TRACE'):
+                print('portfolio', name, r_cli, round(time.time() - _t0, 1), file=sys.stderr)
         if ok:
             r = z3.unsat
             backend = 'pit'
